@@ -87,10 +87,10 @@ func init() {
 		gen: func(t *rapid.T) disco.Info {
 			var i disco.Info
 			i.Node = genOpt().Draw(t, "node")
-			for n := rapid.IntRange(0, 3).Draw(t, "nident"); n > 0; n-- {
+			for n := listLen(t, "nident", 3); n > 0; n-- {
 				i.Identity = append(i.Identity, genIdentity(t))
 			}
-			for n := rapid.IntRange(0, 4).Draw(t, "nfeat"); n > 0; n-- {
+			for n := listLen(t, "nfeat", 4); n > 0; n-- {
 				i.Features = append(i.Features, genFeature(t))
 			}
 			for n := rapid.SampledFrom([]int{0, 0, 1, 1, 2}).Draw(t, "nforms"); n > 0; n-- {
